@@ -8,6 +8,7 @@ from ..harness import CheckBase
 
 class Check(CheckBase):
     property_id = 'C08'
+    evaluations_counter = 'histories'
     level = 'exploration'
     rule = ('histories over several key families (owner/shared/clone/independent or unencrypted) mixing snapshot, delete, clean '
             'with INTERRUPTED snapshots (snapshot object upload fails for good, or the k-th chunk upload fails) and interrupted '
